@@ -1593,3 +1593,36 @@ BENIGN += [
         {"file": CV, "old": "    int flag = HandleError(cvflag, ab, dt, t0);\n", "new": "    const realtype reached = t0;\n    int flag = HandleError(cvflag, ab, dt, reached);\n"},
         {"file": OD, "old": "    Observer observer(mxsteps_);\n", "new": "    const int budget = mxsteps_;\n    Observer observer{budget};\n"}]},
 ]
+
+
+# ---------------------------------------------------------------- fourth catalogue: integrator advanced before the ladder; configuration entry points
+_RESET_OD = "int Naunet::Reset(int nsystem, double atol, double rtol, int mxsteps) {\n    if (nsystem != 1) {\n        printf(\"This solver doesn't support nsystem > 1!\");\n        return NAUNET_FAIL;\n    }\n\n"
+_RESET_STORE = "    n_system_ = nsystem;\n    mxsteps_  = mxsteps;\n    atol_     = atol;\n    rtol_     = rtol;\n\n    return NAUNET_SUCCESS;\n};\n\n#ifdef IDX_ELEM_H\nint Naunet::SetReferenceAbund"
+_HDR = "naunet/templates/cvode/include/naunet.h.j2"
+
+
+def _resume(sig):
+    return ("int Naunet::Resume(" + sig + ") {\n    int flag = CV_TOO_MUCH_WORK;\n    for (int k = 0; k < tries && flag == CV_TOO_MUCH_WORK; k++) {\n"
+            "        flag = CVode(cv_mem_, tout, cv_y_, &tnow, CV_NORMAL);\n    }\n    return flag;\n}\n\n")
+
+
+def _resumed(then):
+    return "    if (cvflag == -1) {\n        cvflag = Resume(dt, t0);\n" + then + "    }\n\n    realtype dt_init = dt;\n"
+
+
+_RESUME_DECL = {"file": _HDR, "old": "    realtype ab_tmp_[NEQUATIONS];  // Temporary state for error handling\n", "new": "    realtype ab_tmp_[NEQUATIONS];  // Temporary state for error handling\n    int Resume(realtype tout, realtype tnow, int tries = 2);\n"}
+MUTANTS += [
+    {"name": "resumed-before-the-ladder-time-by-value", "edits": [
+        _RESUME_DECL,
+        {"file": CV, "old": _HEAD, "new": _resume("realtype tout, realtype tnow, int tries") + _HEAD},
+        {"file": CV, "old": "    realtype dt_init = dt;\n", "new": _resumed("        if (cvflag >= 0) {\n            return NAUNET_SUCCESS;\n        }\n")}], "rules": ["R3"]},
+    {"name": "reset-early-exit-without-the-budget", "file": OD, "old": _RESET_OD, "new": _RESET_OD + "    if (nsystem == n_system_ && atol == atol_ && rtol == rtol_) {\n        return NAUNET_SUCCESS;\n    }\n\n", "rules": ["R7"]},
+    {"name": "reset-does-not-store-the-budget", "file": OD, "old": _RESET_STORE, "new": _RESET_STORE.replace("    mxsteps_  = mxsteps;\n", ""), "rules": ["R7"]},
+]
+BENIGN += [
+    {"name": "reset-early-exit-when-nothing-changes", "file": OD, "old": _RESET_OD,
+     "new": _RESET_OD + "    if (nsystem == n_system_ && atol == atol_ && rtol == rtol_ && mxsteps == mxsteps_) {\n        return NAUNET_SUCCESS;\n    }\n\n"},
+    {"name": "reset-stores-through-a-setter", "edits": [
+        {"file": OD, "old": _RESET_STORE, "new": _RESET_STORE.replace("    n_system_ = nsystem;\n    mxsteps_  = mxsteps;\n    atol_     = atol;\n    rtol_     = rtol;\n", "    Configure(nsystem, atol, rtol, mxsteps);\n")},
+        {"file": OD, "old": "int Naunet::Reset(int nsystem,", "new": "void Naunet::Configure(int nsystem, double atol, double rtol, int budget) {\n    n_system_ = nsystem;\n    mxsteps_  = budget;\n    atol_     = atol;\n    rtol_     = rtol;\n}\n\nint Naunet::Reset(int nsystem,"}]},
+]
